@@ -23,7 +23,7 @@ CHURN = os.path.join(VERIF, "churn")
 
 
 def run_one(group, patch, props):
-    sid = "churn-%s-%s" % (group, patch[:-5])
+    sid = "churn-%s-%s-%d" % (group, patch[:-5], os.getpid())
     d = seedcheck.scratch(sid)
     out = {}
     try:
